@@ -182,7 +182,8 @@ impl<T: Send + Sync + 'static> Puppet<T> {
                 deferred: 0,
                 pulls_recv: 0,
             });
-            ((ex.subs.len() - 1) as u16, ex.cfg.late_greet)
+            let late = if ex.cfg.late.is_empty() { ex.cfg.late_greet } else { ex.cfg.late.get(j as usize).copied().unwrap_or(false) };
+            ((ex.subs.len() - 1) as u16, late)
         });
         self.sinks.lock().unwrap_or_else(|e| e.into_inner()).push((s, sink));
         rec(Ev::In(Actor::Sub(s), M::Hs));
